@@ -69,6 +69,40 @@ theorem forced_h3_without_roundtripper_crashes :
     route ⟨some .h3, false, false, false, false, []⟩ ⟨.https, false⟩
       ⟨[], true, true, true, false, .fail, false, false, false⟩ = .crash := by decide
 
+/-- Every setter keeps "a forced HTTP/3 has its round tripper". -/
+theorem setting_preserves_wf (supported : Bool) (c : Cfg) (s : Setting) (h : c.WF) :
+    (applySetting supported c s).WF := by
+  unfold Cfg.WF at *
+  cases s <;> simp [applySetting, enableH3] <;> try (intro hf; simp_all)
+  all_goals (repeat' split) <;> simp_all
+
+theorem settings_preserve_wf (supported : Bool) (ss : List Setting) (c : Cfg) (h : c.WF) :
+    (ss.foldl (applySetting supported) c).WF := by
+  induction ss generalizing c with
+  | nil => exact h
+  | cons s ss ih => exact ih _ (setting_preserves_wf supported c s h)
+
+/-- For every configuration reachable from `T()` through the protocol setters (any order, any
+number, clones included): a forced request is carried by the forced version or fails with an
+error — it never crashes. -/
+theorem forced_version_or_error_reachable (supported : Bool) (ss : List Setting) (req : Req) (net : Net)
+    (v : Ver) (hf : (ss.foldl (applySetting supported) initialProto).force = some v)
+    (hc : (ss.foldl (applySetting supported) initialProto).handshake = true → net.custom ≠ .plain) :
+    route (ss.foldl (applySetting supported) initialProto) req net = .ok v
+    ∨ ∃ e, route (ss.foldl (applySetting supported) initialProto) req net = .error e := by
+  have wf : (ss.foldl (applySetting supported) initialProto).WF :=
+    settings_preserve_wf supported ss initialProto (by intro h; cases h)
+  exact forced_version_or_error _ req net v hf (fun hv => wf (hv ▸ hf)) hc
+
+/-- The un-patched `DisableHTTP3` breaks the invariant (class `forced-h3-after-disable-panics`). -/
+theorem unpatched_disable_breaks_wf :
+    route ([Setting.forceH3, .disableH3].foldl (applySettingUnpatched true) initialProto) ⟨.https, false⟩
+      ⟨[.h2, .http11], true, true, true, false, .fail, false, false, false⟩ = .crash := by decide
+
+example : ([Setting.forceH3, .disableH3].foldl (applySetting true) initialProto).force = none := by decide
+example : ([Setting.enableH3, .forceH1, .clone, .forceH3].foldl (applySetting true) initialProto).force = some .h3 := by
+  decide
+
 /-- **Un-forced https uses a negotiated version.** -/
 theorem unforced_negotiated (cfg : Cfg) (req : Req) (net : Net) (v : Ver)
     (hf : cfg.force = none) (hs : req.scheme = .https) (h : route cfg req net = .ok v) :
